@@ -1,6 +1,7 @@
 package types
 
 import (
+	"encoding/json"
 	"fmt"
 	"reflect"
 )
@@ -24,9 +25,34 @@ func ConvertValueList(values []interface{}) ([]interface{}, error) {
 		if IsNull(val) {
 			return nil, fmt.Errorf("null value cannot be inserted")
 		}
-		jsonValues = append(jsonValues, ConvertToJSONSupportedValue(val))
+		jsonValue, err := ConvertToReplicatedValue(val)
+		if err != nil {
+			return nil, err
+		}
+		jsonValues = append(jsonValues, jsonValue)
 	}
 	return jsonValues, nil
+}
+
+// ConvertToReplicatedValue converts a value into the value every replica will hold once it has travelled inside an
+// operation (as JSON): scalars as ConvertToJSONSupportedValue does, structs, maps and slices by a JSON round trip.
+// The issuing replica must store this value, not the original one: a nested int64 beyond 2^53 or a nested float32
+// is a different number after the trip.
+func ConvertToReplicatedValue(t interface{}) (JSONValue, error) {
+	v := ConvertToJSONSupportedValue(t)
+	switch v.(type) {
+	case float64, string, bool:
+		return v, nil
+	}
+	b, err := json.Marshal(v)
+	if err != nil {
+		return nil, err
+	}
+	var out interface{}
+	if err := json.Unmarshal(b, &out); err != nil {
+		return nil, err
+	}
+	return out, nil
 }
 
 // ToInterfaceArray transforms an array of JSNValues to the array of interfaces
